@@ -214,6 +214,16 @@ fn formed_seeds(s: &CoreSpec, which: &[&str]) -> Vec<Vec<HistStep>> {
                 sb.ev(Ev::Apply(vec![al(b0), al(c0)], true));
                 sb.ev(Ev::Apply(vec![mm(b0, 0, State::Down)], true));
             }
+            // long-lived instances: the 8-bit timer token is about to wrap
+            // (254: active, 255: defunct after leaving)
+            "aged-254" => {
+                sb.ev(Ev::Apply(vec![al(b0), al(c0)], true));
+                sb.age_token(254);
+            }
+            "aged-255" => {
+                sb.ev(Ev::Apply(vec![al(b0), al(c0)], true));
+                sb.age_token(255);
+            }
             _ => panic!("unknown seed {w}"),
         }
         out.push(sb.done());
@@ -511,6 +521,42 @@ pub fn c13_variants(tier: &str, words: &[u32]) -> Vec<Variant> {
             let l = if th { lim(8, 7, 10_000_000, 900.0) } else { lim(5, 5, 2_000_000, 30.0) };
             out.push(Variant { spec: s, lim: l });
         }
+    }
+    // An identity that cannot renew: being told it is Down makes the instance
+    // Defunct. The batches take the last active peer(s) down FIRST and name
+    // the instance itself afterwards, within one call: the connection state is
+    // only re-evaluated after the whole batch, so this is the one route into
+    // Defunct with zero active members and the instance still "connected".
+    for deadline in [false, true] {
+        if !th && deadline {
+            continue;
+        }
+        let me = id(A, 1).with(Renew::None);
+        let cfg = Cfg { notify_down: true, gossip: Some((200, 1)), ..Cfg::default() };
+        let mut s = CoreSpec::new(&format!("c13-norenew-{}", if deadline { "deadline" } else { "anyorder" }), me, cfg.clone());
+        s.words = words.to_vec();
+        s.mons.c13 = true;
+        if deadline {
+            s.policy = TimerPolicy::DeadlineOrder;
+            s.sleep_menu = vec![45, 150];
+        }
+        let b_me = vec![mm(id(B, 0), 0, State::Down), mm(me, 0, State::Down)];
+        let bc_me = vec![mm(id(B, 0), 0, State::Down), mm(id(C, 0), 0, State::Down), mm(me, 0, State::Down)];
+        let me_b = vec![mm(me, 0, State::Down), mm(id(B, 0), 0, State::Down)];
+        s.alpha = Alpha {
+            srcs: vec![(id(B, 0), 0, true)],
+            kinds: vec![Kind::Gossip, Kind::Ack(0), Kind::TurnUndead],
+            payload_kinds: vec![Kind::Gossip],
+            payloads: vec![vec![], vec![mm(id(C, 0), 0, State::Down)], b_me.clone(), bc_me.clone(), me_b.clone()],
+            self_rel: vec![(0, State::Down)],
+            applies: vec![(b_me, true), (bc_me, true), (me_b, false), (vec![al(id(B, 0))], true)],
+            api: vec![Ev::Leave, Ev::Reuse],
+            change_gens: vec![1],
+            ..Alpha::default()
+        };
+        s.seed_hists = formed_seeds(&s, &["one-peer", "two-peers", "mid-probe", "aged-254", "aged-255"]);
+        let l = if th { lim(7, 6, 8_000_000, 900.0) } else { lim(4, 4, 1_500_000, 30.0) };
+        out.push(Variant { spec: s, lim: l });
     }
     out
 }
